@@ -367,6 +367,12 @@ func (t *Tokenizer) tokenizeBuffer(buf []byte, last bool) {
 			t.addToken(string(t.tmp))
 		case tokenColon:
 			t.addToken(string(t.tmp))
+			if t.mode != colonMap {
+				// The token was not a key, the colon is looked at again in
+				// the next mode as it is when the token is scanned in one go.
+				off--
+				break
+			}
 			t.mode = valueMap
 		case tokenNlColon:
 			t.addToken(string(t.tmp))
